@@ -4,12 +4,12 @@
 # text.split(/\r\n|\r|\n/) gives them for the WHOLE text (specs/jslines.py: jl), are lines_out followed by the open line
 # partially_decoded_line - whatever the chunk boundaries were.  Parsed, never executed.
 
-classdef('js.TextDecoder', ghost=dict(delivered=Str, pending=Bool))
+classdef('js.TextDecoder', ghost=dict(delivered=Str, pending=Bool, failed=Bool))
 classdef('js.Buffer', ghost=dict(nbytes=Int))
 classdef('js_rbql_csv.RbqlIOHandlingError', bases=['Exception'])
 classdef('js_rbql_csv.CSVRecordIterator',
          fields=dict(decoder=Opt[Obj['js.TextDecoder']], encoding=Str, partially_decoded_line=Str, partially_decoded_line_ends_with_cr=Bool,
-                     NL=Int, utf8_bom_removed=Bool, input_exhausted=Bool, process_line_polymorphic=MethodTag),
+                     NL=Int, utf8_bom_removed=Bool, input_exhausted=Bool, process_line_polymorphic=MethodTag, line_aggregator=Obj['js_csv_utils.MultilineRecordAggregator']),
          ghost=dict(lines_out=Seq[Str], lines_in=Seq[Str]))
 
 
@@ -20,7 +20,8 @@ def _(self: Obj['js.TextDecoder'], chunk: Obj['js.Buffer'], options: Str) -> Str
     ghost_update(self.delivered, old(self.delivered) + result)
     ensures(implies(chunk.nbytes >= 1 and len(result) == 0, self.pending), 'a_chunk_without_text_is_carried_over')
     ensures(implies(old(self.pending) and len(result) >= 1, result[0] != '\n'), 'a_completed_sequence_is_not_a_line_feed')
-    raises('TypeError', self.delivered == old(self.delivered) and self.pending == old(self.pending), 'invalid_utf8_nothing_delivered')
+    ensures(self.failed == old(self.failed), 'no_failure')
+    raises('TypeError', self.delivered == old(self.delivered) and self.pending == old(self.pending) and self.failed, 'invalid_utf8_nothing_delivered')
     modifies(self)
 
 
@@ -38,7 +39,7 @@ def _(text: Str) -> List[Str]:
 @trusted('js_rbql_csv.CSVRecordIterator.store_or_propagate_exception', trusted='error plumbing (Promises): keeps the first error for the consumer; does not touch the line state')
 def _(self: Obj['js_rbql_csv.CSVRecordIterator'], exception: Opaque):
     ensures(self.partially_decoded_line == old(self.partially_decoded_line) and self.partially_decoded_line_ends_with_cr == old(self.partially_decoded_line_ends_with_cr)
-            and self.lines_out == old(self.lines_out) and same(self.decoder, old(self.decoder)), 'line_state_untouched')
+            and self.lines_out == old(self.lines_out) and same(self.decoder, old(self.decoder)) and self.input_exhausted == old(self.input_exhausted), 'line_state_untouched')
     modifies(self)
 
 
@@ -64,7 +65,7 @@ def stream_inv(self):
 def _(self: Obj['js_rbql_csv.CSVRecordIterator'], line: Str):
     ghost_update(self.lines_out, old(self.lines_out) + [line])
     ensures(self.partially_decoded_line == old(self.partially_decoded_line) and self.partially_decoded_line_ends_with_cr == old(self.partially_decoded_line_ends_with_cr)
-            and same(self.decoder, old(self.decoder)), 'chunk_state_untouched')
+            and same(self.decoder, old(self.decoder)) and self.input_exhausted == old(self.input_exhausted), 'chunk_state_untouched')
     modifies(self)
 
 
@@ -112,3 +113,55 @@ def _(self: Obj['js_rbql_csv.CSVRecordIterator'], data_chunk: Obj['js.Buffer']):
     ensures(same(self.decoder, old(self.decoder)), 'same_decoder', hide=['jl'])
     raises('AssertionError', False, 'the_skipped_line_is_empty', hide=['jl'])
     modifies(self, opt_val(self.decoder), fresh_only())
+
+
+@trusted('js.TextDecoder.decode__0', trusted='A-JS-DECODER: decode() without arguments flushes the decoder: it throws when the input ended inside a multi-byte character and delivers nothing otherwise')
+def _(self: Obj['js.TextDecoder']) -> Str:
+    ensures(len(result) == 0 and self.delivered == old(self.delivered) and self.failed == old(self.failed), 'nothing_more_is_delivered')
+    raises('TypeError', self.delivered == old(self.delivered) and self.failed, 'truncated_sequence')
+    modifies(self)
+
+
+classdef('js_csv_utils.MultilineRecordAggregator')
+
+
+@trusted('js_csv_utils.MultilineRecordAggregator.is_inside_multiline_record', trusted='multi-line (quoted_rfc) record assembly: compared with the Python reader by the bounded jobs')
+def _(self: Obj['js_csv_utils.MultilineRecordAggregator']) -> Bool:
+    pass
+
+
+@trusted('js_csv_utils.MultilineRecordAggregator.get_full_line', trusted='multi-line (quoted_rfc) record assembly: compared with the Python reader by the bounded jobs')
+def _(self: Obj['js_csv_utils.MultilineRecordAggregator'], line_separator: Str) -> Str:
+    pass
+
+
+@trusted('js_rbql_csv.CSVRecordIterator.process_record_line', trusted='record splitting and the record queue: leaves the line layer alone')
+def _(self: Obj['js_rbql_csv.CSVRecordIterator'], line: Str):
+    ensures(self.partially_decoded_line == old(self.partially_decoded_line) and self.lines_out == old(self.lines_out) and same(self.decoder, old(self.decoder))
+            and self.input_exhausted == old(self.input_exhausted), 'line_state_untouched')
+    modifies(self)
+
+
+@trusted('js_rbql_csv.CSVRecordIterator.try_resolve_next_record', trusted='Promise plumbing: leaves the line layer alone')
+def _(self: Obj['js_rbql_csv.CSVRecordIterator']):
+    ensures(self.partially_decoded_line == old(self.partially_decoded_line) and self.lines_out == old(self.lines_out) and same(self.decoder, old(self.decoder))
+            and self.input_exhausted == old(self.input_exhausted), 'line_state_untouched')
+    modifies(self)
+
+
+@contract('js_rbql_csv.CSVRecordIterator.process_data_stream_end', name='C20.js.stream.end', props=['C20'], store_policy='none')
+def _(self: Obj['js_rbql_csv.CSVRecordIterator']):
+    requires(stream_inv(self), 'inv')
+    requires(not same(self, opt_val(self.decoder)), 'decoder_is_another_object')
+    uses(jl_nonempty)
+    uses(seq_init_append(old(self.lines_out), old(self.partially_decoded_line)))
+    # at the end of the stream every line of the whole text has been handed on, except an empty last line (a final line break ends the last line,
+    # it does not start another): exactly what bulk reading does with split_lines(text) - whatever the chunks were
+    requires(not opt_val(self.decoder).failed, 'no_decoding_error_so_far')
+    ensures(implies(not opt_val(self.decoder).failed,
+                    self.lines_out == (jl(opt_val(self.decoder).delivered, len(opt_val(self.decoder).delivered))[:-1]
+                                       if len(jl(opt_val(self.decoder).delivered, len(opt_val(self.decoder).delivered))[-1]) == 0
+                                       else jl(opt_val(self.decoder).delivered, len(opt_val(self.decoder).delivered)))), 'all_lines_of_the_text_but_an_empty_last_one', hide=['jl'])
+    ensures(opt_val(self.decoder).delivered == old(opt_val(self.decoder).delivered) and same(self.decoder, old(self.decoder)), 'nothing_more_is_decoded')
+    ensures(self.input_exhausted, 'exhausted')
+    modifies(self, opt_val(self.decoder))
